@@ -1,4 +1,6 @@
 import GrinVerif.Lemmas.KvProg
+import GrinVerif.Lemmas.KvSpace
+import GrinVerif.Lemmas.ChainStoreProg
 /-! # C18 — database batches are atomic, isolated and survive growth of the map
 
 Property theorems only (helpers in `Lemmas/Kv.lean`, `Lemmas/KvProg.lean`; the model of
@@ -336,5 +338,183 @@ theorem needs_resize_grows (mapSize used chunk newSize : Nat) (hc : 0 < chunk)
   · simp [hr] at h
 
 example : needsResize 1048576 1000000 1048576 = (true, 2097152) := by decide
+
+/-! ## no operation fails for lack of space — also with fragmented free space -/
+
+/-- A batch whose allocation requests (runs of contiguous pages: overflow pages of big values,
+single pages of tree nodes) together fit behind the last used page succeeds — for EVERY
+freelist, i.e. however the space freed by earlier deletes and overwrites is scattered; it moves
+the last page by at most the sum of its requests. -/
+theorem tail_fit_never_fails (s : Space) (reqs : List Nat) (h : s.lastPg + reqs.sum ≤ s.mapPages) :
+    ∃ s', allocAll s reqs = some s' ∧ s'.mapPages = s.mapPages ∧ s'.lastPg ≤ s.lastPg + reqs.sum :=
+  allocAll_ok reqs s h
+
+/-- `Store::batch()` = `maybe_resize` then the write transaction.  With the map `needs_resize`
+leaves (enlarged or not; thresholds as exact rationals), every batch that can allocate at most a
+tenth of that map succeeds, whatever the freelist: the resize check measures the used space by
+the LAST page (`env_size`), so fragmentation cannot make it late. -/
+theorem no_space_failure_fragmented (mapSize chunk lastPg : Nat) (free : List Nat) (reqs : List Nat)
+    (hc : 0 < chunk) (hm : chunk ≤ mapSize)
+    (hreq : reqs.sum * PAGE_SIZE * 10 ≤ (needsResize mapSize (lastPg * PAGE_SIZE) chunk).2) :
+    ∃ s', allocAll { mapPages := (needsResize mapSize (lastPg * PAGE_SIZE) chunk).2 / PAGE_SIZE,
+                     lastPg := lastPg, free := free } reqs = some s' := by
+  have hused : lastPg * PAGE_SIZE * 10 ≤ 9 * (needsResize mapSize (lastPg * PAGE_SIZE) chunk).2 := by
+    cases hr : needsResize mapSize (lastPg * PAGE_SIZE) chunk with
+    | mk b n =>
+      cases b with
+      | true =>
+        have := (needs_resize_grows mapSize (lastPg * PAGE_SIZE) chunk n hc hr).2 hm
+        simp only; omega
+      | false =>
+        unfold needsResize at hr
+        simp only at hr
+        by_cases hq : (decide (lastPg * PAGE_SIZE * 10 > 9 * mapSize) || decide (mapSize < chunk)) = true
+        · simp only [hq, Bool.not_true, Bool.false_eq_true, if_false] at hr
+          by_cases hlt : mapSize < chunk
+          · omega
+          · simp [hlt] at hr
+        · simp only [hq, Bool.not_false, if_true, Prod.mk.injEq, true_and] at hr
+          simp only [Bool.or_eq_true, decide_eq_true_eq, not_or, Nat.not_lt] at hq
+          subst hr
+          simp only; omega
+  obtain ⟨s', h, _⟩ := allocAll_ok reqs
+    { mapPages := (needsResize mapSize (lastPg * PAGE_SIZE) chunk).2 / PAGE_SIZE, lastPg := lastPg, free := free }
+    (by
+      simp only
+      rw [Nat.le_div_iff_mul_le (by decide : 0 < PAGE_SIZE)]
+      generalize (needsResize mapSize (lastPg * PAGE_SIZE) chunk).2 = new at *
+      rw [Nat.add_mul]
+      omega)
+  exact ⟨s', h⟩
+
+/-- the driver's check of a `kv space` line is an instance of `tail_fit_never_fails` -/
+theorem spaceOk_sound (mapSize lastPg need chunk : Nat) (free : List Nat) (reqs : List Nat)
+    (hok : spaceOk mapSize lastPg need chunk = true) (hneed : reqs.sum ≤ need) :
+    ∃ s', allocAll { mapPages := (needsResize mapSize (lastPg * PAGE_SIZE) chunk).2 / PAGE_SIZE,
+                     lastPg := lastPg + 1, free := free } reqs = some s' := by
+  simp only [spaceOk, decide_eq_true_eq] at hok
+  obtain ⟨s', h, _⟩ := allocAll_ok reqs
+    { mapPages := (needsResize mapSize (lastPg * PAGE_SIZE) chunk).2 / PAGE_SIZE, lastPg := lastPg + 1, free := free }
+    (by
+      simp only
+      rw [Nat.le_div_iff_mul_le (by decide : 0 < PAGE_SIZE)]
+      generalize (needsResize mapSize (lastPg * PAGE_SIZE) chunk).2 = new at *
+      have : (lastPg + 1 + reqs.sum) * PAGE_SIZE ≤ (lastPg + 1 + need) * PAGE_SIZE :=
+        Nat.mul_le_mul_right _ (by omega)
+      omega)
+  exact ⟨s', h⟩
+
+/-- why the used space has to be measured by the last page: six pages are free but scattered
+(every other value deleted), a value of five pages cannot use them and fails when the tail is
+shorter than five pages — and succeeds from the tail, with the same freelist, in a larger map -/
+example : alloc { mapPages := 100, lastPg := 98, free := [10, 12, 14, 16, 18, 20] } 5 = none ∧
+    alloc { mapPages := 200, lastPg := 98, free := [10, 12, 14, 16, 18, 20] } 5
+      = some { mapPages := 200, lastPg := 103, free := [10, 12, 14, 16, 18, 20] } ∧
+    alloc { mapPages := 100, lastPg := 98, free := [10, 30, 31, 32, 33, 34, 50] } 5
+      = some { mapPages := 100, lastPg := 98, free := [10, 50] } := by decide
+
+example : spaceOk 1048576 230 19 1048576 = true ∧ spaceOk 1048576 250 19 1048576 = true ∧
+    spaceOk 1048576 200 60 1048576 = false := by decide
+
+/-! ## the typed layer `chain/src/store.rs` (`ChainStore`, its `Batch`) -/
+section typed
+open ChainStore
+
+/-- Every typed getter of `chain::store::Batch` / `ChainStore` is a `get_ser` of the batch /
+a fresh-transaction `get_ser` of the store at the key determined by the object asked for; every
+typed saver / deleter is a fixed sequence of puts / deletes at such keys; a typed batch body
+(typed operations, child batches committed or dropped, any nesting depth) performs exactly the
+store-level operations of the store-level body `p.lower`; and different typed objects never
+share a `(database, key)`.  Hence the typed layer inherits every theorem above (instances
+below). -/
+theorem typed_getters_refine_kv :
+    (∀ st k, getB st k = ofOpt (bget st k.key)) ∧
+    (∀ st k, getS st k = ofOpt (sget st k.key)) ∧
+    (∀ st h, blockExistsB st h = bexists st (TKey.block h).key ∧ blockExistsS st h = sexists st (TKey.block h).key) ∧
+    (∀ st, headHeaderB st = headHeaderWith (bget st) ∧ headHeaderS st = headHeaderWith (sget st)) ∧
+    (∀ st o, tstep st o = run st o.lower) ∧
+    (∀ o : TOp, ∀ op ∈ o.lower, (∃ k v, op = Op.put k v) ∨ (∃ k, op = Op.del k)) ∧
+    (∀ p : TProg, p.lower.flat = p.flat) ∧
+    (∀ p c, ttxn p c = txn p.lower c) ∧
+    (∀ a b : TKey, a.key = b.key → a = b) := by
+  refine ⟨fun _ _ => rfl, fun _ _ => rfl, fun _ _ => ⟨rfl, rfl⟩, fun _ => ⟨rfl, rfl⟩, fun _ _ => rfl, ?_,
+    flat_lower, ttxn_eq, tkey_injective⟩
+  intro o op hop
+  cases o with
+  | save k v => simp [TOp.lower] at hop; simp [hop]
+  | deleteBlock hsh => simp [TOp.lower] at hop; rcases hop with h | h | h <;> simp [h]
+  | deleteOutPos c => simp [TOp.lower] at hop; simp [hop]
+  | deleteRaw k => simp [TOp.lower] at hop; simp [hop]
+
+/-- A typed save in the innermost open batch (any depth) is read back by the matching typed
+getter of that batch, and changes the answer of NO other typed getter (no aliasing between
+headers, blocks, sums, spent indices, output positions and the four head keys). -/
+theorem typed_read_your_save (st : St) (k k' : TKey) (v : Val) (h : st.stack ≠ []) :
+    getB (tstep st (.save k v)) k' = if k = k' then .val v else getB st k' := by
+  simp only [getB, tstep, TOp.lower, run, List.foldl]
+  rw [bget_put st _ _ _ h]
+  by_cases hk : k = k'
+  · simp [hk, ofOpt]
+  · have : k.key ≠ k'.key := fun he => hk (tkey_injective _ _ he)
+    simp [hk, this]
+
+/-- `delete_block(h)` removes the block, its sums and its spent index from the batch's view and
+nothing else (in particular not the header of `h`). -/
+theorem typed_delete_block (st : St) (hsh : Bytes) (k : TKey) (h : st.stack ≠ []) :
+    getB (tstep st (.deleteBlock hsh)) k =
+      if k = .block hsh ∨ k = .sums hsh ∨ k = .spent hsh then .notFound else getB st k := by
+  simp only [getB, tstep, TOp.lower, run, List.foldl]
+  rw [bget_del _ _ _ (stack_del _ _ (stack_del _ _ h)), bget_del _ _ _ (stack_del _ _ h), bget_del _ _ _ h]
+  by_cases h1 : k = .block hsh
+  · simp [h1, TKey.key, ofOpt]
+  · by_cases h2 : k = .sums hsh
+    · simp [h2, TKey.key, ofOpt]
+    · by_cases h3 : k = .spent hsh
+      · simp [h3, TKey.key, ofOpt]
+      · have e1 : (TKey.block hsh).key ≠ k.key := fun he => h1 (tkey_injective _ _ he).symm
+        have e2 : (TKey.sums hsh).key ≠ k.key := fun he => h2 (tkey_injective _ _ he).symm
+        have e3 : (TKey.spent hsh).key ≠ k.key := fun he => h3 (tkey_injective _ _ he).symm
+        simp [h1, h2, h3, e1, e2, e3]
+
+/-- Typed isolation: at every point of a `ChainStore::batch()` with typed body `p` before its
+final commit / drop (every prefix of `begin; p`), every typed getter of the plain `ChainStore`
+(any thread) answers as before the batch began — saves, deletes, child batches, child commits
+and drops at any depth notwithstanding. -/
+theorem typed_isolation (p : TProg) (st : St) (h : st.stack = []) (ops₁ ops₂ : List Op)
+    (hsplit : Op.begin :: p.flat = ops₁ ++ ops₂) :
+    (∀ k, getS (run st ops₁) k = getS st k) ∧
+    (∀ hsh, blockExistsS (run st ops₁) hsh = blockExistsS st hsh) ∧
+    headHeaderS (run st ops₁) = headHeaderS st := by
+  have hc := isolation p.lower st h ops₁ ops₂ (by rw [flat_lower]; exact hsplit)
+  have hs : ∀ k, sget (run st ops₁) k = sget st k := fun k => by simp [sget, hc]
+  refine ⟨fun k => by simp [getS, hs], fun hsh => by simp [blockExistsS, sexists, hs], ?_⟩
+  have : sget (run st ops₁) = sget st := funext hs
+  simp [headHeaderS, this]
+
+/-- Typed atomic publication: the outermost commit of a typed batch replaces the committed map
+`m` by the textbook meaning of its store-level body applied to `m`, in one step; a dropped typed
+batch — whatever it and its children did — leaves the exact previous state. -/
+theorem typed_commit_and_drop (p : TProg) (st : St) (h : st.stack = []) :
+    den (run st (ttxn p true)).committed = p.lower.sem (den st.committed) ∧
+    (run st (ttxn p true)).stack = [] ∧
+    run st (ttxn p false) = st := by
+  rw [ttxn_eq, ttxn_eq]
+  exact ⟨(commit_publishes_all p.lower st h).1, (commit_publishes_all p.lower st h).2,
+    dropped_batch_no_trace p.lower st h⟩
+
+/-- non-vacuity: save a header and the head pointing to it in a child batch that commits, the
+parent's `head_header` finds it; a sibling child that deletes the block is dropped; after the
+outermost commit the plain store sees header, head and block -/
+example :
+    let hh : Bytes := List.replicate 32 7
+    let tip : Val := List.replicate 8 0 ++ hh ++ List.replicate 40 0
+    let p : TProg := .op (.save (.block hh) [1, 2, 3])
+      (.child (.op (.save (.header hh) [9, 9]) (.op (.save .head tip) .done)) true
+        (.child (.op (.deleteBlock hh) .done) false .done))
+    let st := run {} (ttxn p true)
+    headHeaderS st = .val [9, 9] ∧ getS st (.block hh) = .val [1, 2, 3] ∧ blockExistsS st hh = true ∧
+    headHeaderS (run {} (ttxn p false)) = .notFound := by decide
+
+end typed
 
 end GV.Props.C18
